@@ -164,6 +164,35 @@ def check_all(tr, jumps, states, labels_site, M, n_atoms, T, dt, temp, info, dim
             if abs(gm - wm) > 1e-9 * max(abs(wm), 1e-300) or (np.isfinite(ws) and abs(gs - ws) > 1e-9 * max(abs(ws), abs(wm), 1e-300)):
                 raise Violation('rates-aggregate-part-counters', f'{pair}: {gm!r} +/- {gs!r} vs {wm!r} +/- {ws!r} from part counts {vals}')
         info['labels'].append('rates')
+        # ---- activation energies: the same parts, aggregated with the documented formula
+        #      E = -ln( n_jumps / (fraction of atoms at the start label x N x part time) [/2 for X->X] / attempt frequency ) k_B T / e
+        nu_ = float(gcall(gcall(jumps.trajectory.metrics).attempt_frequency)[0])
+        ae = gcall(jumps.activation_energies, n_parts, allow=(ValueError, ZeroDivisionError)) if n_parts >= 2 else Raised(None)
+        if not isinstance(ae, Raised) and np.isfinite(nu_) and nu_ > 0 and not double:
+            locs = [gcall(p.atom_locations) for p in gcall(tr.split, n_parts)]
+            with np.errstate(divide='ignore', invalid='ignore'):
+                for pair in set(pairs):
+                    nj = np.array([c[pair] for c in pc], float)
+                    frac = np.array([l[pair[0]] for l in locs], float)
+                    eff = nj / (frac * n_atoms * total_time / n_parts)
+                    if pair[0] == pair[1]:
+                        eff = eff / 2
+                    e_arr = -np.log(eff / nu_) * oracle.K_B * temp / oracle.E_CHARGE
+                    wm, ws = float(np.mean(e_arr)), float(np.std(e_arr, ddof=1))
+                    gm, gs = float(ae.loc[pair, 'energy']), float(ae.loc[pair, 'std'])
+                    for g_, w_, what in ((gm, wm, 'energy'), (gs, ws, 'std')):
+                        if np.isfinite(w_):
+                            if not abs(g_ - w_) <= 1e-9 * max(1.0, abs(w_)):
+                                raise Violation('activation-energies-aggregate-part-counters', f'{pair} {what}: {g_!r} vs {w_!r} from part counts {nj.tolist()} and start-label fractions {frac.tolist()}')
+                        elif np.isfinite(g_):
+                            raise Violation('activation-energies-aggregate-part-counters', f'{pair} {what}: {g_!r} but the parts give {w_!r} (counts {nj.tolist()}, fractions {frac.tolist()})')
+            info['labels'].append('activation-energies')
+    # ---- label bookkeeping derived from the site list
+    sp = list(gcall(lambda: jumps.site_pairs))
+    if set(sp) != {(a, b) for a in labels_site for b in labels_site} or list(gcall(lambda: jumps.jump_names)) != ['->'.join(k) for k in sp]:
+        raise Violation('site-pairs-are-all-label-pairs', f'{sp} for labels {labels_site}')
+    if set(c_lab) - set(sp):
+        raise Violation('label-counter-aggregates-matrix', f'counter keys {set(c_lab) - set(sp)} are not label pairs')
 
 
 def jumps_or_none(tr, res=0):
